@@ -12,7 +12,12 @@ func (rt *runtime) cmplEvaluateNodeProgram(node *nodeProgram, eval bool) Value {
 	rt.cmplFunctionDeclaration(node.functionList)
 	rt.cmplVariableDeclaration(node.varList)
 	rt.scope.frame.file = node.file
-	return rt.cmplEvaluateNodeStatementList(node.body)
+	value := rt.cmplEvaluateNodeStatementList(node.body)
+	if value.isEmpty() {
+		// A program without a value-producing statement evaluates to undefined.
+		return Value{}
+	}
+	return value
 }
 
 func (rt *runtime) cmplCallNodeFunction(function *object, stash *fnStash, node *nodeFunctionLiteral, argumentList []Value) Value {
